@@ -206,9 +206,9 @@ def _own_module(seed: int, size: int, feats: list[str]):
         if t == tys.Unit:
             return val.Unit
         if t == I5:
-            return IntVal(rng.randrange(32), 5)
+            return IntVal(rng.choice([rng.randrange(32), -1 - rng.randrange(31)]), 5)
         if t == TUP:
-            return val.Tuple(rng.choice([val.TRUE, val.FALSE]), IntVal(rng.randrange(32), 5))
+            return val.Tuple(rng.choice([val.TRUE, val.FALSE]), IntVal(rng.choice([rng.randrange(32), -1 - rng.randrange(31)]), 5))
         return None
 
     funcs = []  # (node, ins, outs, poly?)
@@ -697,8 +697,17 @@ def _late_edits(h, seed):
             groups = [v for v in by_parent.values() if len(v) >= 2]
             if groups:
                 g = rng.choice(groups)
-                a, b = sorted(rng.sample(g, 2), key=lambda n: n.idx)
-                h.add_order_link(a, b)
+                big = [v for v in groups if len(v) >= 3]
+                if big and rng.random() < 0.5:
+                    # two predecessors ordered before one node, the first order edge withdrawn again (by `delete_link`):
+                    # the edge that remains must still be exported with keys on both ends (seeded change C12-13)
+                    a, b, c = sorted(rng.sample(rng.choice(big), 3), key=lambda n: n.idx)
+                    h.add_order_link(a, c)
+                    h.add_order_link(b, c)
+                    h.delete_link(a.out(-1), c.inp(-1))
+                else:
+                    a, b = sorted(rng.sample(g, 2), key=lambda n: n.idx)
+                    h.add_order_link(a, b)
 
 
 def _build0(spec):
@@ -822,7 +831,14 @@ def _value_matches(v, t, lenient):
         return not fs
     # a constructor of an extension (e.g. arithmetic.int.const): only hugr-py's un-serialised value classes
     # export themselves this way; accepted for the export of the original builder HUGR.
-    return lenient and t[0] == "apply" and v.get("v") == "Extension" and not t[1].startswith(("core.", "compat."))
+    if not (lenient and t[0] == "apply" and v.get("v") == "Extension" and not t[1].startswith(("core.", "compat."))):
+        return False
+    if t[1] == "arithmetic.int.const":
+        # the integer constructor carries the width and the value the constant holds — the very numbers of its
+        # serialised payload, negative values included (seeded change C12-14)
+        pl = (v.get("value") or {}).get("v") or {}
+        return len(t[2]) == 2 and _lit(t[2][0], "i") == pl.get("log_width") and _lit(t[2][1], "i") == pl.get("value")
+    return True
 
 
 def check_spec(doc, mod, lenient=False, root_dfg=False):
